@@ -2,6 +2,7 @@ SPECIFICATION Spec
 CONSTANTS
   Dedupe = FALSE
   N = 3
+  Full = TRUE
   NSort = 3
   SortAllNames = FALSE
 INVARIANT DoneRightWithoutDiamond
